@@ -14,8 +14,8 @@ B(b) == IF b THEN 1 ELSE 0
 ProbeRow(t, p) ==
   LET c == IF t[p.ssrc].on THEN t[p.ssrc] ELSE FreshCtx IN
   IF p.proto = "rtp"
-  THEN <<"rtp", p.ssrc, p.idx, B(MustAcceptIdx(c, p.idx)), B(WouldAcceptIdx(c, p.idx))>>
-  ELSE <<"rtcp", p.ssrc, p.idx, 1, 1>>
+  THEN <<"rtp", p.ssrc, p.idx, B(MustAcceptIdx(c, p.idx)), B(WouldAcceptIdx(c, p.idx)), B(IdealMustAt(ideal', p.ssrc, p.idx))>>
+  ELSE <<"rtcp", p.ssrc, p.idx, 1, 1, 1>>
 
 \* the stream's next packet (+1 beyond the sender's highest), if the bounded sender may produce it
 NextRow(t, s) ==
@@ -31,6 +31,7 @@ EdgeRec ==
     pre  |-> hist,
     act  |-> hist'[Len(hist')],
     est  |-> step'.est,
+    imust |-> B(step'.imust),
     exp  |-> [ unchanged |-> B(Crypto(rx') = Crypto(rx)),
                same      |-> B(rx' = rx),
                post      |-> SetToSeq({CtxRow(rx', k) : k \in AllSsrcs}),
